@@ -5,7 +5,7 @@
 UNITS = {
     'quorum': {'template': 'units/quorum/unit.rs', 'serves': ['C03', 'C06', 'C09'], 'min_verified': 30},
     'finality': {'template': 'units/finality/unit.rs', 'serves': ['C08', 'C10', 'C07'], 'min_verified': 36},
-    'merkle': {'template': 'units/merkle/unit.rs', 'serves': ['C15'], 'min_verified': 45},
+    'merkle': {'template': 'units/merkle/unit.rs', 'serves': ['C15', 'C14'], 'min_verified': 45},
     'validated': {'template': 'units/validated/unit.rs', 'serves': ['C09', 'C10', 'C03'], 'min_verified': 84},
     'shred_auth': {'template': 'units/shred_auth/unit.rs', 'serves': ['C12'], 'min_verified': 22},
     'rs_codec': {'template': 'units/rs_codec/unit.rs', 'serves': ['C11', 'C13'], 'min_verified': 34},
